@@ -562,6 +562,21 @@ def voice_contract():
     )
 
 
+def voice_requests_contract():
+    """The request handler that subscribe_voice_assistant registers, exercised (ghost) on two consecutive requests from the device:
+    every request is answered by exactly one handler task (handle_start for a start, handle_stop otherwise), whatever the first one
+    is still doing."""
+    return Contract(
+        CLI + "subscribe_voice_assistant", self_type="inst[APIClient]", tags=["C17"], label="requests",
+        params={"handle_start": "callable[UserCoro]", "handle_stop": "callable[UserCoro]", "handle_audio": "opt[callable[UserCoro]]",
+                "handle_announcement_finished": "opt[callable[UserCoro]]"},
+        requires=[("session-alive", "connected(self)"), ("only-the-request-handler", "handle_audio is None and handle_announcement_finished is None")],
+        post_hints="h = subscribed_callback(0)\nh(new_message(VoiceAssistantRequest))\nh(new_message(VoiceAssistantRequest))",
+        ensures=[P("C17", "every-request-invokes-the-matching-handler-once", "n_tasks == 2")],
+        raises={"APIConnectionError": {"kind": "auxiliary"}},
+    )
+
+
 def install_c16_c17(eng):
     import aioesphomeapi.core as core
     import aioesphomeapi.client as CL
@@ -581,6 +596,19 @@ def install_c16_c17(eng):
             names[name] = VFunc("builtin", name=name, impl=f)
             return f
         return deco
+
+    # attributes of the (opaque) VoiceAssistantCommand model read by the request handler: total functions of the model object
+    eng.obj_attrs[("Model", "start")] = lambda e, s, v: VBool(z3.Function("model_start", ObjS, BoolS)(v.e))
+    eng.obj_attrs[("Model", "wake_word_phrase")] = lambda e, s, v: VStr(z3.Function("model_wake_word_phrase", ObjS, StrS)(v.e))
+    eng.obj_attrs[("Model", "conversation_id")] = lambda e, s, v: VStr(z3.Function("model_conversation_id", ObjS, StrS)(v.e))
+    eng.obj_attrs[("Model", "flags")] = lambda e, s, v: VInt(z3.Function("model_flags", ObjS, IntS)(v.e))
+    eng.obj_attrs[("Model", "audio_settings")] = lambda e, s, v: VObj(z3.Function("model_audio_settings", ObjS, ObjS)(v.e), "Model")
+
+    @bfn("new_message")
+    def _nm(eng_, st, args, kwargs):
+        m = z3.Const(fresh_name("devmsg"), ObjS)
+        st.fact(z3.And(typeof_f(m) == cm.class_key(eng_, st, args[0]), m != z3.Const("none-obj", ObjS)))
+        return ok(st, VObj(m, "Message"))
 
     @bfn("subscribed_types")
     def _st(eng_, st, args, kwargs):
@@ -618,6 +646,8 @@ def install_c16_c17(eng):
     prev_nd = eng.hooks.get("names_dynamic")
 
     def nd(name, st):
+        if name == "n_tasks":
+            return VInt(sum(1 for ev in st.events if ev[0] == "task"))
         if name == "last_responses":
             rs = [ev[1] for ev in st.events if ev[0] == "responses"]
             if not rs:
@@ -661,6 +691,9 @@ def targets_for(eng, which, tags):
             c.tags = list(tags)
             out.append(contract_target(c))
         c = voice_contract()
+        c.tags = list(tags)
+        out.append(contract_target(c))
+        c = voice_requests_contract()
         c.tags = list(tags)
         out.append(contract_target(c))
     if "gates" in which:
@@ -716,6 +749,8 @@ def install_lifecycle_models(eng):
     eng.obj_methods[("StrDict", "items")] = lambda e, s, r, a, k: ok(s, VSeq(strdict_items_f(r.e), parse_ty("tuple[str,str]")))
     eng.obj_methods[("Task", "add_done_callback")] = lambda e, s, r, a, k: ok(s, VNone)
     eng.obj_methods[("Task", "cancel")] = lambda e, s, r, a, k: ok(s, VBool(True))
+    # whether a task created earlier has finished by now is not known to the code that asks
+    eng.obj_methods[("Task", "done")] = lambda e, s, r, a, k: ok(s, VBool(z3.Bool(fresh_name("task_done"))))
     eng.obj_methods[("Task", "cancelled")] = lambda e, s, r, a, k: ok(s, VBool(z3.Bool(fresh_name("cancelled"))))
     prev_nd = eng.hooks.get("names_dynamic")
 
